@@ -13,6 +13,10 @@ coq/Model/C19.v relies on, read off the current source:
                        grid/grid.py     every `return` of Grid.to_* hands out copy.deepcopy(...) (true) or the
                                         object itself (false)
 
+  c19_f_poly_indices_hit_copy / c19_f_poly_indices_final_copy
+                       grid/grid.py     to_polycollection(return_indices=True): the index table is handed out as
+                                        copy.copy(...) on the cache-hit branch / on the final return
+
 usage: c19_flags.py <repo> <coq/Gen dir>.  Any source shape that is not recognised aborts (exit 2).
 """
 import ast
@@ -200,6 +204,31 @@ def flag_returns(tree, meth):
     return kinds.pop()
 
 
+def flag_indices(tree):
+    """Grid.to_polycollection: the index table returned next to the collection — on the cache-hit branch
+    (taken from the cache dict) and on the final return (the freshly built one): copied (True) or the object
+    itself (False)"""
+    fn = find_func(tree, "to_polycollection", cls="Grid")
+    out = {}
+    for s in ast.walk(fn):
+        if isinstance(s, ast.Return) and isinstance(s.value, ast.Tuple) and len(s.value.elts) == 2:
+            e = s.value.elts[1]
+            copied = isinstance(e, ast.Call) and isinstance(e.func, ast.Attribute) and e.func.attr in ("copy", "deepcopy")
+            inner = e.args[0] if copied and e.args else e
+            if isinstance(inner, ast.Subscript) and "_poly_collection_cached_parameters" in ast.dump(inner):
+                site = "hit"
+            elif isinstance(inner, ast.Name) and inner.id == "corrected_to_original_faces":
+                site = "final"
+            else:
+                raise Broken("Grid.to_polycollection: returned index table %s" % ast.dump(e)[:80])
+            if site in out:
+                raise Broken("Grid.to_polycollection: two %s returns of the index table" % site)
+            out[site] = copied
+    if set(out) != {"hit", "final"}:
+        raise Broken("Grid.to_polycollection: index-table returns found: %s" % sorted(out))
+    return out
+
+
 def main():
     repo, gen = sys.argv[1], sys.argv[2]
 
@@ -217,7 +246,9 @@ def main():
                  ("c19_f_esmf_area_copies", flag_area(parse("uxarray/io/_esmf.py"), "_read_esmf", "elementArea")),
                  ("c19_f_gdf_returns_copy", flag_returns(grid, "to_geodataframe")),
                  ("c19_f_poly_returns_copy", flag_returns(grid, "to_polycollection")),
-                 ("c19_f_line_returns_copy", flag_returns(grid, "to_linecollection"))]
+                 ("c19_f_line_returns_copy", flag_returns(grid, "to_linecollection")),
+                 ("c19_f_poly_indices_hit_copy", flag_indices(grid)["hit"]),
+                 ("c19_f_poly_indices_final_copy", flag_indices(grid)["final"])]
     except (Broken, SyntaxError, OSError, IndexError) as ex:
         sys.stderr.write("tie broken: %s\n" % ex)
         return 2
